@@ -32,11 +32,14 @@ Simple == { PrintP, CommentP(S2B(" c ")), CommentP(<<32, 195, 169, 10, 32>>), Co
             VerbP(S2B("v")), VerbP(S2B(" {{ x }} ")), VerbP(S2B("x {% if a %} y")), VerbP(S2B("{# c #}")),
             VerbP(S2B("{ } % #")), VerbP(<<195, 169, 10>>), VerbP(S2B("{{ x }}{% endif %}")), VerbP(S2B("{%if a%}y{%endif%}")) }
 
-WrapKinds == {"if", "for", "block", "set", "filter", "macro", "else"}
+WrapKinds == {"if", "for", "block", "set", "filter", "macro", "else", "forelse", "fornull"}
 Wrap(kind, n, p) ==
   CASE kind = "if" -> [stmts |-> <<IfS(NameE("a"), p.stmts, <<Text("NO")>>, TRUE)>>, out |-> p.out, defs |-> p.defs]
     [] kind = "else" -> [stmts |-> <<IfS(Un("not", NameE("a")), <<Text("NO")>>, p.stmts, TRUE)>>, out |-> p.out, defs |-> p.defs]
     [] kind = "for" -> [stmts |-> <<ForS("", "v", ArrE(<<IntE(1), IntE(2)>>), NoE, p.stmts, <<>>, FALSE)>>, out |-> p.out \o p.out, defs |-> p.defs]
+    (* the else branch of a loop over nothing: its text is emitted once, whatever the (unrendered) body consists of *)
+    [] kind = "forelse" -> [stmts |-> <<ForS("", "v", ArrE(<<>>), NoE, <<Text("NO")>>, p.stmts, TRUE)>>, out |-> p.out, defs |-> p.defs]
+    [] kind = "fornull" -> [stmts |-> <<ForS("k", "v", NameE("nothing"), NoE, <<Text("N"), PrintS(NameE("v")), Text("O")>>, p.stmts, TRUE)>>, out |-> p.out, defs |-> p.defs]
     [] kind = "block" -> [stmts |-> <<BlockS("b" \o ToString(n), p.stmts)>>, out |-> p.out, defs |-> p.defs]
     [] kind = "set" -> [stmts |-> <<SetCap("c" \o ToString(n), p.stmts), PrintS(NameE("c" \o ToString(n)))>>, out |-> p.out, defs |-> p.defs]
     [] kind = "filter" -> [stmts |-> <<FilterS(<<"up">>, p.stmts)>>, out |-> AsciiUpper(p.out), defs |-> p.defs]
@@ -58,6 +61,8 @@ Skeletons ==
             s2 \in {PrintP, CommentP(S2B(" d ")), CommentP(S2B("- d -")), CommentP(S2B(" d -")), VerbP(S2B("{# x #}"))} }
   \cup { Cat(ChunkP(c1), ChunkP(S2B(" ") \o c2)) : c1 \in Chunks, c2 \in Chunks }
   \cup { Around(Wrap(kd, 1, p)) : kd \in WrapKinds, p \in Inner1 }
+  (* bodies that are one literal chunk and nothing else *)
+  \cup { Around(Wrap(kd, 1, ChunkP(c))) : kd \in WrapKinds, c \in {ch \in Chunks : BeforeOK(ch)} }
   \cup (IF Deep THEN { Around(Wrap(k2, 2, Around(Wrap(k1, 1, p)))) : k1 \in WrapKinds, k2 \in WrapKinds,
                        p \in {q \in Inner1 : q.stmts[1].k # "verbatim"} }
         ELSE { Around(Wrap(k2, 2, Around(Wrap(k1, 1, Cat(Cat(ChunkP(c1), PrintP), ChunkP(<<10>>)))))) :
